@@ -336,6 +336,14 @@ func (s *Server) ServeHTTP(w http.ResponseWriter, req *http.Request) {
 		return
 	}
 	w.Header().Set("Content-Type", "application/dns-message")
+	if s.zone.Chunked {
+		w.WriteHeader(http.StatusOK)
+		if f, ok := w.(http.Flusher); ok {
+			f.Flush() // headers leave before the body is known: no Content-Length, chunked transfer coding
+		}
+		w.Write(resp)
+		return
+	}
 	w.Header().Set("Content-Length", strconv.Itoa(len(resp)))
 	w.Write(resp)
 }
